@@ -282,3 +282,98 @@ def _loopload_one(ctx, R, P, mask, fn):
     R.check(conv == list(range(16, 24)), '%s: conversion of all eight registers' % fn, where, expected='scvtf on v16..v23', found=conv)
     em = sorted((int(i.ops[0][1:].split('.')[0]), i.ops[1], i.ops[2]) for i in fp if i.mnem in ('bif', 'bit', 'bsl', 'and', 'orr') and i.ops[0].startswith('v'))
     R.check([e[0] for e in em] == [20, 21, 22, 23] and len({e[1:] for e in em}) == 1, '%s: e-register mask' % fn, where, expected='one mask operation with the same two mask registers on v20..v23 only', found=em)
+
+
+@memoised('A64-DSREAD-LIGHT')
+def rule_dsread_light(ctx, R):
+    R.rule('A64-DSREAD-LIGHT', 'the light-mode dataset read of a compiled A64 program up to its call of the item routine - the generated `eor w20, wA, wB`, the static text of vm_instructions_end_light with the 8-byte v1 or v2 '
+           'tweak copied in and the mask word generateProgramLight writes - executed on terms: ma:mx as in full-memory mode, first argument = cache pointer, third argument = item number (old ma & CacheLineAlignMask) / 64 '
+           '(plus the dataset offset A64-DSOFF decides), nothing else of the VM state touched', min_instances=12)
+    FI = astq.Facts(ctx, 'K0')
+    mask = FI.const('randomx::CacheLineAlignMask')
+    F, regmap, gp, consts, gen = _tables(ctx, 'generateProgramLight')
+    o = ctx.obj('a64')
+    P = rtasm.Prog(o, 'a64')
+    R.saw(unit='src/jit_compiler_a64_static.S', config='K2')
+    R.saw(fn=gp['q'])
+    s0, s_mask, s_tw = P.sym('randomx_program_aarch64_vm_instructions_end_light'), P.sym('randomx_program_aarch64_light_cacheline_align_mask'), P.sym('randomx_program_aarch64_vm_instructions_end_light_tweak')
+    s_v1, s_v2 = P.sym('randomx_program_aarch64_vm_instructions_end_light_v1'), P.sym('randomx_program_aarch64_vm_instructions_end_light_v2')
+    where = 'src/jit_compiler_a64_static.S:randomx_program_aarch64_vm_instructions_end_light'
+    ph = P.ins[s_mask]
+    rd = ph.raw & 31
+    cand = [v for v, ln in consts if (v & 0x7F800000) == 0x12000000 and (v & 31) == rd and ((v >> 5) & 31) == rd]
+    if len(cand) != 1:
+        raise AnalysisBroken('A64-DSREAD-LIGHT: expected one constant `and` word for register %d in generateProgramLight, found %d' % (rd, len(cand)))
+    # the number of bytes the generator copies over the tweak site
+    ncopy = None
+    for x in walk(gp['body']):
+        if x['k'] == 'Call' and x.get('name') in ('memcpy', '__builtin_memcpy', '__builtin___memcpy_chk') and len(x.get('a', [])) >= 3 and 'light_tweak' in astq.show(x) or \
+           (x['k'] == 'Call' and x.get('name') in ('memcpy', '__builtin_memcpy', '__builtin___memcpy_chk') and len(x.get('a', [])) >= 3 and astq.show(x['a'][0]).startswith('(this->code + dst')):
+            v = val(x['a'][2])
+            if v is not None:
+                ncopy = v if ncopy in (None, v) else -1
+    if ncopy is None or ncopy <= 0 or ncopy % 4:
+        raise AnalysisBroken('A64-DSREAD-LIGHT: the size of the tweak copy in generateProgramLight was not found')
+    seq = []
+    a = s0
+    while a in P.ins and P.ins[a].kind != 'call':
+        seq.append(P.ins[a])
+        a = P.nxt(P.ins[a])
+        if len(seq) > 60:
+            raise AnalysisBroken('A64-DSREAD-LIGHT: no call within 60 instructions of the light-mode piece')
+    undecided, nviol = [], 0
+    for ver, src_sym in (('v1', s_v1), ('v2', s_v2)):
+        tweak = [P.ins[src_sym + 4 * k].raw for k in range(ncopy // 4)]
+        m = DsMachine(regmap)
+        m.x[31] = atom(('undef', 31))
+        tr = []
+        words = [gen[0] | (regmap[2] << gen[1]['readReg2']) | (regmap[7] << gen[1]['readReg3'])]
+        for i in seq:
+            k = (i.addr - s_tw) // 4
+            if 0 <= k < len(tweak):
+                words.append(tweak[k])
+            elif i.addr == s_mask:
+                words.append(cand[0])
+            else:
+                words.append(i.raw)
+        for w in words:
+            f = lambda lo, n: (w >> lo) & ((1 << n) - 1)
+            if (w & 0xFFC00000) in (0xA9000000,) and f(5, 5) == 31:          # stp to the frame: spill
+                tr.append('stp[sp]')
+                continue
+            if (w & 0xFF8003FF) in (0xD10003FF, 0x910003FF) and f(5, 5) == 31:  # sub / add sp, sp, #imm
+                tr.append('sp')
+                continue
+            if (w & 0xFFC003E0) == 0x910003E0 and f(10, 12) == 0:               # mov xd, sp
+                m.put(f(0, 5), atom(('frame',)))
+                tr.append('mov sp')
+                continue
+            tr.append(m.step(w, where))
+        t = X.and_(xor(atom(('reg', 2)), atom(('reg', 7))), const(M32))
+        mp0 = atom(('undef', 9))
+        x9 = ror(xor(mp0, t), const(32)) if ver == 'v1' else xor(ror(mp0, const(32)), t)
+        item = V.srl(X.and_(V.srl(mp0, 32), const(mask)), 6)
+        checks = [('%s ma:mx (x9)' % ver, m.get(9), x9), ('%s first argument: cache pointer' % ver, m.get(0), atom(('undef', 1))), ('%s third argument: item number' % ver, m.get(2), item),
+                  ('%s second argument: the frame' % ver, m.get(1), atom(('frame',)))]
+        for k in range(8):
+            checks.append(('%s r%d untouched' % (ver, k), m.get(regmap[k]), atom(('reg', k))))
+        for inst, got, want in checks:
+            if got == want:
+                R.ok(inst, where)
+                continue
+            differs = None
+            for vals in T.VALUATIONS:
+                try:
+                    a_, b_ = T.term_eval(got.canon(), vals), T.term_eval(want.canon(), vals)
+                except AnalysisBroken:
+                    a_, b_ = 0, 1
+                if a_ != b_:
+                    differs = (a_, b_)
+                    break
+            if differs is None:
+                undecided.append('%s is %s, expected %s; undecided' % (inst, T.term_show(got, None), T.term_show(want, None)))
+                continue
+            nviol += 1
+            R.violation(inst, where, expected=T.term_show(want, None), found='%s after `%s`' % (T.term_show(got, None), ' ; '.join(tr)))
+    if undecided and not nviol:
+        raise AnalysisBroken('A64-DSREAD-LIGHT: ' + undecided[0])
